@@ -3,8 +3,11 @@ import DriverLib.Gens
 import DriverLib.WorldDrv
 open Lean Drv
 
-def dispatch (j : Json) : R Json := do
+partial def dispatch (j : Json) : R Json := do
   match (← strF j "k") with
+  | "multi" =>
+    let rs ← (← arrF j "reqs").mapM dispatch
+    return jObj [("replies", jArr rs)]
   | "permute" => handlePermute j
   | "convert" => handleConvert j
   | "gen" => handleGen j
